@@ -26,6 +26,8 @@ from harness.common import Ctx, Part, lean_batch, load_corpus, pmap
 
 NS = "IrVerif.SymExpr."
 THEOREMS = [
+    NS + "C16_parser_sound_complete",
+    NS + "C16_print_parse",
     NS + "C16_partial",
     NS + "C16_int_ops",
 ]
@@ -669,70 +671,120 @@ IDENTS = ["N", "M", "K", "batch", "seq_len", "a.b", "_x", "x1", "dim_0", "decode
 NUMS = ["0", "1", "2", "3", "7", "10", "007", "64", "12345678901234567890"]
 
 
-def gen_sentence(rng, depth: int):
-    """random sentence of the documented grammar as a token list [(kind, text)]"""
+def gen_deriv(rng, depth: int):
+    """random derivation tree of the documented grammar (JSON form of the Lean type `D .expr`)"""
+
+    def lift_prim(p):  # primary -> unary
+        return ["upow", ["prim", p]]
 
     def atom_small():
-        return rng.choice([[("num", rng.choice(["0", "1", "2", "3"]))], [("id", rng.choice(["N", "M", "K"]))]])
+        if rng.random() < 0.5:
+            return ["num", rng.choice([0, 1, 2, 3])]
+        return ["ident", rng.choice(["N", "M", "K"])]
+
+    def as_expr(u):  # unary -> expr
+        return ["expr", ["term", u, ["ttNil"]], ["etNil"]]
 
     def expr(d):
-        out = term(d)
+        t = term(d)
+        tail = ["etNil"]
+        items = []
         while rng.random() < 0.35:
-            o = rng.choice("+-")
-            out = out + [(o, o)] + term(d)
-        return out
+            items.append((rng.choice("+-"), term(d)))
+        for o, x in reversed(items):
+            tail = ["etCons", o, x, tail]
+        return ["expr", t, tail]
 
     def term(d):
-        out = unary(d)
+        u = unary(d)
+        items = []
         while rng.random() < 0.35:
-            o = rng.choice(["*", "/", "//", "%"])
-            out = out + [(o, o)] + unary(d)
-        return out
+            items.append((rng.choice(["*", "/", "//", "%"]), unary(d)))
+        tail = ["ttNil"]
+        for o, x in reversed(items):
+            tail = ["ttCons", o, x, tail]
+        return ["term", u, tail]
 
     def unary(d):
         if rng.random() < 0.2:
-            return [("-", "-")] + unary(d)
-        return power(d)
+            return ["neg", unary(d)]
+        return ["upow", power(d)]
 
     def power(d):
         base = primary(d)
-        if rng.random() < 0.2:
-            # exponents stay small: atom | -atom | atom ** atom
-            e = atom_small()
+        if rng.random() < 0.15:
+            # exponents stay small: atom | -atom | atom ** atom | (atom + atom)
             r = rng.random()
-            if r < 0.3:
-                e = [("-", "-")] + e
-            elif r < 0.45:
-                e = e + [("**", "**")] + atom_small()
-            elif r < 0.55:
-                e = [("(", "(")] + e + [("+", "+")] + atom_small() + [(")", ")")]
-            return base + [("**", "**")] + e
-        return base
+            if r < 0.4:
+                e = lift_prim(atom_small())
+            elif r < 0.65:
+                e = ["neg", lift_prim(atom_small())]
+            elif r < 0.85:
+                e = ["upow", ["pow", atom_small(), lift_prim(atom_small())]]
+            else:
+                inner = ["expr", ["term", lift_prim(atom_small()), ["ttNil"]],
+                         ["etCons", "+", ["term", lift_prim(atom_small()), ["ttNil"]], ["etNil"]]]
+                e = lift_prim(["paren", inner])
+            return ["pow", base, e]
+        return ["prim", base]
 
     def primary(d):
         r = rng.random()
         if d <= 0 or r < 0.3:
             if rng.random() < 0.4:
-                return [("num", rng.choice(NUMS))]
-            return [("id", rng.choice(IDENTS))]
+                return ["num", int(rng.choice(NUMS))]
+            return ["ident", rng.choice(IDENTS)]
         if r < 0.55:
-            return [("(", "(")] + expr(d - 1) + [(")", ")")]
+            return ["paren", expr(d - 1)]
         if r < 0.75:
-            f = rng.choice(sorted(FN1))
-            return [("id", f), ("(", "(")] + expr(d - 1) + [(")", ")")]
+            return ["call1", rng.choice(sorted(FN1)), expr(d - 1)]
         if r < 0.85:
-            f = rng.choice(sorted(FN2))
-            return [("id", f), ("(", "(")] + expr(d - 1) + [(",", ",")] + expr(d - 1) + [(")", ")")]
+            return ["call2", rng.choice(sorted(FN2)), expr(d - 1), expr(d - 1)]
         f = rng.choice(sorted(FNN))
         k = rng.choice([0, 1, 2, 2, 3, 4]) if rng.random() < 0.3 else 2
-        out = [("id", f), ("(", "(")]
-        for i in range(k):
-            if i:
-                out.append((",", ","))
-            out += expr(d - 1)
-        return out + [(")", ")")]
+        if k == 0:
+            return ["callN", f, ["argsNil"]]
+        tail = ["atNil"]
+        for _ in range(k - 1):
+            tail = ["atCons", expr(d - 1), tail]
+        return ["callN", f, ["argsCons", expr(d - 1), tail]]
 
     return expr(depth)
+
+
+def flatten_deriv(j):
+    """the sentence of a derivation tree as [(kind, text)] (independent of the Lean `flatten`)"""
+    tag = j[0]
+    op = lambda o: [(o, o)]
+    if tag in ("expr", "term", "argsCons"):
+        return flatten_deriv(j[1]) + flatten_deriv(j[2])
+    if tag in ("etNil", "ttNil", "argsNil", "atNil"):
+        return []
+    if tag in ("etCons", "ttCons"):
+        return op(j[1]) + flatten_deriv(j[2]) + flatten_deriv(j[3])
+    if tag == "neg":
+        return op("-") + flatten_deriv(j[1])
+    if tag in ("upow", "prim"):
+        return flatten_deriv(j[1])
+    if tag == "pow":
+        return flatten_deriv(j[1]) + op("**") + flatten_deriv(j[2])
+    if tag == "num":
+        return [("num", str(j[1]))]
+    if tag == "ident":
+        return [("id", j[1])]
+    if tag == "paren":
+        return op("(") + flatten_deriv(j[1]) + op(")")
+    if tag in ("call1", "callN"):
+        return [("id", j[1])] + op("(") + flatten_deriv(j[2]) + op(")")
+    if tag == "call2":
+        return [("id", j[1])] + op("(") + flatten_deriv(j[2]) + op(",") + flatten_deriv(j[3]) + op(")")
+    if tag == "atCons":
+        return op(",") + flatten_deriv(j[1]) + flatten_deriv(j[2])
+    raise AssertionError(tag)
+
+
+def gen_sentence(rng, depth: int):
+    return flatten_deriv(gen_deriv(rng, depth))
 
 
 def render_tokens(rng, toks, style: int) -> str:
@@ -747,6 +799,8 @@ def render_tokens(rng, toks, style: int) -> str:
             prev = toks[i - 1][0]
             if style != 0 and prev in ("num", "id") and kind in ("num", "id") and (not out or out[-1] == ""):
                 out.append(" ")
+        if kind == "num" and style == 2 and rng.random() < 0.1:
+            text = "00" + text
         out.append(text)
     s = "".join(out)
     if style == 2 and rng.random() < 0.3:
@@ -1096,6 +1150,39 @@ class StringCase:
             P.disagree("token streams differ", self.case_obj, tk.get("r"), real_toks)
 
 
+class DerivCase:
+    """One derivation tree of the grammar: Lean flatten/sem/parse vs the real parser."""
+
+    def __init__(self, d, envs, src: str):
+        self.d, self.envs, self.src = d, envs, src
+        self.reqs = []
+
+    def prepare(self, P: Part):
+        toks = flatten_deriv(self.d)
+        self.s = s = " ".join(t for _, t in toks)
+        self.case_obj = {"kind": "deriv", "d": self.d, "s": s, "envs": self.envs}
+        if not pow_safe(s, self.envs):
+            P.count("skipped=power-tower")
+            raise SkipCase
+        self.outcome = real_parse_outcome(s)
+        self.real_struct = real_parse_structure(s) if self.outcome[0] == "ok" else None
+        self.real_vals = [real_eval(self.outcome[1], e) for e in self.envs] if self.outcome[0] == "ok" else None
+        if self.outcome[0] == "raised":
+            P.fail("grammar:rejected:" + _text_sig(s), f"sentence {s!r} of the documented grammar is rejected ({self.outcome[1]})", self.case_obj)
+        self.reqs.append({"m": "sym.derive", "d": self.d, "envs": [envj(e) for e in self.envs]})
+
+    def finish(self, P: Part, outs):
+        (o,) = outs
+        P.case(["deriv", self.d], nontrivial=len(self.s) > 1, sample={"sentence": self.s, "real": self.outcome[0]}, src=self.src,
+               outcome=self.outcome[0], length=min(len(self.s) // 10 * 10, 80))
+        if o.get("s") != self.s:
+            P.disagree("Lean flatten/render of the derivation differs from the harness's", self.case_obj, o.get("s"), self.s)
+        if o.get("parsed") != o.get("sem"):
+            P.disagree("model: parseTokens (flatten d) != sem d", self.case_obj, o.get("parsed"), o.get("sem"))
+        lean = {"r": "ok", "tree": o.get("sem"), "vals": o.get("vals")}
+        TreeCase._compare_parse(P, self.s, self.outcome, self.real_struct, lean, self.real_vals)
+
+
 def real_tokens(s: str):
     from onnx_ir._symbolic_shapes import _ExpressionTokenizer
 
@@ -1168,6 +1255,8 @@ def _run_chunk(arg):
     for it in items:
         if kind == "tree":
             c = TreeCase(**it)
+        elif kind == "deriv":
+            c = DerivCase(**it)
         else:
             c = StringCase(**it)
         try:
@@ -1270,16 +1359,20 @@ def run(ctx: Ctx) -> None:
     # ---- strings: grammar-directed + malformed
     for s in FIXED_MALFORMED:
         str_items.append(dict(s=s, envs=_string_envs(rng, s), src="fixed"))
+    deriv_items = []
     for i in range(ctx.pick(3000, 60000)):
-        toks = gen_sentence(rng, rng.choice([1, 2, 2, 3, 4]))
+        d = gen_deriv(rng, rng.choice([1, 2, 2, 3, 4]))
+        toks = flatten_deriv(d)
         s = render_tokens(rng, toks, rng.choice([0, 1, 2]))
-        str_items.append(dict(s=s, envs=_string_envs(rng, s), src="grammar"))
+        envs = _string_envs(rng, s)
+        str_items.append(dict(s=s, envs=envs, src="grammar"))
+        deriv_items.append(dict(d=d, envs=envs, src="derivation"))
     for i in range(ctx.pick(3000, 60000)):
         s = gen_malformed(rng, rng.choice([0, 1, 2, 3]))
         str_items.append(dict(s=s, envs=_string_envs(rng, s), src="malformed"))
     ctx.count("corpus_cases", ncorpus)
     rng.shuffle(tree_items)
-    parts = pmap(_run_chunk, _chunks("tree", tree_items, 64) + _chunks("string", str_items, 32))
+    parts = pmap(_run_chunk, _chunks("tree", tree_items, 64) + _chunks("string", str_items, 32) + _chunks("deriv", deriv_items, 16))
     for p in parts:
         ctx.merge(p)
 
